@@ -38,6 +38,11 @@ CLAIMED = {
    "DESIGN.md §4 C14",
    "Trusted: idioms recognised (hasSize guard form, switch/if forms) – anything else is undecided; name anchors for the frontend's buffer-length offset constant; syntactic paths.",
    "static: width/representation lint on typed syntax, must-pass-through guards, path-enumerating non-interference, finite-domain guard evaluation"),
+ "C12": ("other",
+   "Static decision of the structural clauses behind configuration independence: module identity covers every compile input (SSA value identity at the call sites, forward slices of every AssignModuleID parameter into the hash, per-function listener presence inside the loop), compile paths never read configuration-dependent non-identity fields, a cache-restored module is fully re-bound (field-set inclusion compile path ⊆ hit path ∪ deserialiser), the sizer's limits and acceptance are flag-independent (path enumeration), and a custom allocator owns every buffer change. Each violated obligation yields two configurations documented as equivalent that behave differently. Trace equality across the lattice is not decided.",
+   "DESIGN.md §4 C12",
+   "Trusted: the list of configuration-dependent module fields (Memory.Cap, CustomSections, DWARFLines) read off the decoder; syntactic paths; host modules get their identity at construction.",
+   "static: SSA value identity and forward slicing, field-set inclusion between sibling paths, path-enumerating non-interference, dominance guards"),
 }
 
 NOT_APPLICABLE = {
